@@ -16,6 +16,7 @@ LEVEL_TEXT = ("Coq theorems about the weighting functional every score instantia
 LEVEL_NOTE = ("the functional (values * weights, then skipna mean) is a hand model of functions.apply_weights + xarray mean, validated by the "
               "correspondence runs of C05; rmse is checked through rmse^2 (it is the root of the weight-linear mse, see C05)")
 TECHNIQUE = "Coq proof about the weighting functional + metamorphic relations (w, c*w, w1+w2, unit, broadcast) on the implementation"
+TIE_IS_SPEC = True
 SITES = []
 RULE = ("random labelled arrays with weights on sub/supersets of the data dims, non-negative dyadic weights with NaN; relations w vs c*w, "
         "w1+w2 (equal masks), unit weights, explicit broadcast; distinct by hash of (function, inputs, relation); non-trivial = result finite somewhere")
@@ -36,7 +37,7 @@ def recipe_weights(ctx):
             wd = [d for d in dd if rng.random() < 0.6]
             w = gens.rand_da(rng, sizes, dims=wd, lo=1, hi=3, shuffle=False)
             w = w.assign_coords({d: xs[0][d] for d in wd})
-            if rng.random() < 0.3 and wd:
+            if rng.random() < 0.5 and wd:
                 vals = w.values.copy()
                 vals.flat[rng.randrange(vals.size)] = np.nan
                 w = w.copy(data=vals)
@@ -73,6 +74,18 @@ def recipe_weights(ctx):
             ok, why = scorelib.same_result(call(xr.ones_like(w)), call(None))
             if not ok:
                 ctx.violation(f"{rc.name}: unit weights change the result: {why}", desc, "same as unweighted", why)
+            if rc.kind == "mean" and rc.dims_kw and kw0:
+                # "before averaging": the aggregated score is the NaN-skipping mean of the weighted pointwise scores
+                pw_w = call(w, {"preserve_dims": "all"})
+                if pw_w[0] == "ok":
+                    red = kw0.get("reduce_dims")
+                    if red is None:
+                        red = [d for d in dd if d not in kw0.get("preserve_dims", [])]
+                    red = [d for d in red if d in pw_w[1].dims]
+                    want = pw_w[1].mean(dim=red) if red else pw_w[1]
+                    ok, why = scorelib.same_value(base[1], want, tol=1e-8)
+                    if not ok:
+                        ctx.violation(f"{rc.name}: aggregated weighted score is not the NaN-skipping mean of the weighted pointwise scores: {why}", desc, "mean of w*pointwise", why)
             if rc.kind == "mean":
                 w2 = w * 0 + gens.rand_da(rng, sizes, dims=list(w.dims), lo=0, hi=3, shuffle=False).assign_coords({d: w[d] for d in w.dims})
                 r2, r12 = call(w2), call(w + w2)
